@@ -139,7 +139,7 @@ def run(ctx, rep):
     _P.limiter_machine(rep, lib, rid="C14-LIMITER-MACHINE")
     _P.limiter_wiring(rep, lib, rid="C14-LIMITER-WIRING")
     from rules import c16
-    c16.raw_io(rep, lib)
+    c16.raw_io(rep, lib, side="input")
     c16.eof_distinct(rep, lib)
 
 
